@@ -317,6 +317,14 @@ def fastFm (st : C32 × C32) (s : C32) : (C32 × C32) × Float32 :=
   let bottom := (s.1 - q2.1) * q1.2
   ((s, q1), top - bottom)
 
+/-- `QuadratureDemod::process_sync` (without the `fast-math` feature): `t = s * last.conj()` with
+`num_complex`'s product `(ac − bd, ad + bc)`, then `gain * atan2(t.im, t.re)` (libm's `atan2f`). State `last`. -/
+def quadDemod (gain : Float32) (last : C32) (s : C32) : C32 × Float32 :=
+  let c : C32 := (last.1, -last.2)
+  let re := s.1 * c.1 - s.2 * c.2
+  let im := s.1 * c.2 + s.2 * c.1
+  (s, gain * Float32.atan2 im re)
+
 /-- `f32::clamp(min, max)` (its `assert!(min <= max)` is checked by the caller of this model). -/
 def clampF32 (mi mx x : Float32) : Float32 :=
   let x := if x < mi then mi else x
@@ -329,6 +337,10 @@ def dspSync (name : String) (p : List Nat) : Option SyncSpec :=
     some (pureSync Float32 0.0 1 1 fun prev xs =>
       let y := singlePole f32Ops a (1.0 - a) prev (f32 (xs.getD 0 0))
       some (y, [bits y]))
+  | "quaddemod", [gain] =>
+    some (pureSync C32 (0.0, 0.0) 1 1 fun last xs =>
+      let r := quadDemod (f32 gain) last (c32Codec.dec (xs.getD 0 0))
+      some (r.1, [bits r.2]))
   | "fastfm", [] =>
     some (pureSync (C32 × C32) ((0.0, 0.0), (0.0, 0.0)) 1 1 fun st xs =>
       let r := fastFm st (c32Codec.dec (xs.getD 0 0))
